@@ -22,7 +22,8 @@ RULE = ('Generated full sessions on dense markets: start anywhere 1995-2039 with
         'commission) of the tapped fills so far + sum net quantity x that day\'s generated close (1e-9); the '
         'target-allocation table has exactly the equity dates and each row carries the weights of the latest call '
         'dated <= that date (NaN before the first). Non-trivial = burn-in strictly inside the range with >= 1 '
-        'scheduled instant before it and >= 1 at/after it and >= 1 fill.')
+        'scheduled instant before it and >= 1 at/after it and >= 1 fill.'
+        ' Round-5 reach: a third of the sessions hold a second funded portfolio in the same account (part of the account equity the curve reports); every recorded allocation row must equal the weights the alpha model returned at that rebalance (0 for other assets).')
 ASSUMPTIONS = [
     'scheduled instants and the business-day grid both come from the independent calendar, so a wrong schedule class '
     'is reported here as well as by C13 (deliberate: a session that derives the wrong schedule does not trade at the '
@@ -36,8 +37,17 @@ def run_case(case):
     clear_caches()
     cfg = case['cfg']
     mk = case['market']
+    reserve = case.get('reserve')
+
+    def add_reserve(r_):
+        # the session's brokerage account also holds a second, funded portfolio that never trades: it belongs to
+        # the account equity the curve reports
+        b = r_.bt.broker
+        b.subscribe_funds_to_account(reserve)
+        b.create_portfolio('reserve', name='Reserve')
+        b.subscribe_funds_to_portfolio('reserve', reserve)
     with market.csv_dir(mk) as path:
-        r = session.run_session(cfg, path, list(mk))
+        r = session.run_session(cfg, path, list(mk), hooks=add_reserve if reserve else None)
     if r.error:
         raise Violation('session failed with %s: %s at broker time %s' % r.error)
     d0, d1 = cal.date3(cfg['start']), cal.date3(cfg['end'])
@@ -57,6 +67,15 @@ def run_case(case):
     adates = [row['Date'] for row in r.allocations]
     if adates != exp_calls:
         raise Violation('allocation rows dated %s, expected %s' % ([str(x) for x in adates][:6], [str(x) for x in exp_calls][:6]))
+    # each recorded row carries the weights the alpha model returned at that rebalance (zero for every other asset)
+    for row, said in zip(r.allocations, r.alpha.outputs):
+        for a, w in row.items():
+            if a == 'Date':
+                continue
+            want = said.get(a, 0.0)
+            if not (w == want):
+                raise Violation('allocation row of %s records %s = %r; the alpha model returned %r at that rebalance' % (
+                    row['Date'], a, w, said.get(a)))
     for f in r.fills:
         t = f[0]
         if (t.hour, t.minute, t.second) != (14, 30, 0) or t.weekday() > 4:
@@ -82,10 +101,11 @@ def run_case(case):
             net[a] = net.get(a, 0) + int(n)
             gross = max(gross, abs(F(float(p)) * int(n)))
             k += 1
-        e = cash + sum(F(prices[a][d][1]) * n for a, n in net.items())
+        e = cash + sum(F(prices[a][d][1]) * n for a, n in net.items()) + (F(reserve) if reserve else 0)
         scale = max(abs(e), gross, 1)
         if abs(v - float(e)) > 1e-9 * float(scale):
-            raise Violation('equity on %s is %r; cash - fills + holdings at that close is %r' % (d, v, float(e)))
+            raise Violation('equity on %s is %r; cash - fills + holdings at that close%s is %r' % (
+                d, v, ' + the reserve portfolio' if reserve else '', float(e)))
     # allocation table
     cls = list(case.get('labels', []))
     if r.allocations and r.equity_curve:
@@ -111,6 +131,8 @@ def run_case(case):
                         d, c, got, exp_calls[j] if j >= 0 else None, want))
         cls.append('allocation_table_checked')
     cls += [cfg['rebalance'], cfg['alpha']['kind'], cfg['universe']['kind']]
+    if reserve:
+        cls.append('account_with_second_funded_portfolio')
     before = [x for x in sched if x in clock and burn is not None and x < burn]
     if burn is not None and before:
         cls.append('instants_skipped_by_burn_in')
@@ -138,7 +160,8 @@ def cases(draw):
     mk = draw(market.dense_markets(names, d0, (d1 - d0).days))
     cfg, lab = draw(sessgen.full_config(names, start, end, alpha_kinds=('fixed', 'single', 'single', 'cycle'), sched=sched,
                                         entry_kinds=('before', 'start', 'on', 'after1m', 'mid', 'after_end', 'none')))
-    return {'cfg': cfg, 'market': mk, 'labels': lab}
+    return {'cfg': cfg, 'market': mk, 'labels': lab,
+            'reserve': draw(st.sampled_from([None, None, None, 250000.0, 0.5]))}
 
 
 PARTS = [
